@@ -611,6 +611,24 @@ func (fi *FuncInfo) phiBF(phi *ssa.Phi, depth int, edgeBF func(ssa.Value) *BF) *
 // `from` if >= 0) to instruction `at`; each path is the list of branch-outcome
 // formulas along it. ok=false if the path bound is exceeded.
 func (fi *FuncInfo) Paths(at ssa.Instruction, from int) (paths [][]*BF, ok bool) {
+	return fi.pathsOpt(at, from, false)
+}
+
+// PathFormulaNoAsserts is PathFormula without the conditions of assertion branches (an `if`
+// whose other arm panics): what the code requires in order to reach `at`, assertions aside.
+func (fi *FuncInfo) PathFormulaNoAsserts(at ssa.Instruction, from int) (*BF, bool) {
+	paths, ok := fi.pathsOpt(at, from, true)
+	if !ok {
+		return nil, false
+	}
+	var disj []*BF
+	for _, p := range paths {
+		disj = append(disj, bfAnd(p...))
+	}
+	return bfOr(disj...), true
+}
+
+func (fi *FuncInfo) pathsOpt(at ssa.Instruction, from int, skipAsserts bool) (paths [][]*BF, ok bool) {
 	target := at.Block().Index
 	if from < 0 {
 		from = 0
@@ -635,7 +653,7 @@ func (fi *FuncInfo) Paths(at ssa.Instruction, from int) (paths [][]*BF, ok bool)
 				continue // back edges are cut
 			}
 			c := conj
-			if iff, ok := bb.Instrs[len(bb.Instrs)-1].(*ssa.If); ok && len(bb.Succs) == 2 && bb.Succs[0] != bb.Succs[1] {
+			if iff, ok := bb.Instrs[len(bb.Instrs)-1].(*ssa.If); ok && len(bb.Succs) == 2 && bb.Succs[0] != bb.Succs[1] && !(skipAsserts && fi.isAssertBlock(bb.Succs[1-si])) {
 				cf := condCache[iff]
 				if cf == nil {
 					cf = fi.valueBF(iff.Cond, 0)
@@ -1197,4 +1215,17 @@ func arithConsistent(am map[string]*BAtom, env map[string]bool) bool {
 		}
 	}
 	return true
+}
+
+// isAssertBlock: the block ends in a panic (builtin or a no-return logger call).
+func (fi *FuncInfo) isAssertBlock(b *ssa.BasicBlock) bool {
+	if fi.Cut[b.Index] >= 0 {
+		return true
+	}
+	if len(b.Instrs) > 0 {
+		if _, ok := b.Instrs[len(b.Instrs)-1].(*ssa.Panic); ok {
+			return true
+		}
+	}
+	return false
 }
